@@ -29,12 +29,17 @@ Record pserver := { ps_open : bool; ps_addr : bytes; ps_slave : bool; ps_initial
 Record ppool := { pp_addr : bytes; pp_slave : bool; pp_conns : list nat; pp_closed : bool; pp_dialable : bool }.
 Inductive ptask := TWrite (sid : nat) | TClose (sid : nat) | TProbe (sid : nat).
 
-Record pcfg := { cf_limit : Z; cf_password : bytes; cf_timeout : bool; cf_max_active : nat }.
+Record pcfg := { cf_limit : Z; cf_password : bytes; cf_timeout : bool; cf_max_active : nat;
+                 cf_replica_reads : bool;                       (* DisableSlave = false *)
+                 cf_reps : list (bytes * list bytes) }.         (* master address -> replica addresses *)
 
 Record pst := { clients : list (nat * pclient); servers : list (nat * pserver); msgs : list (nat * pmsg);
                 pools : list ppool; slots : list (Z * Z * bytes);      (* range -> master address *)
                 tasks : list ptask; inflight : list (nat * fragref);   (* timeout tree, in push order *)
-                next_mid : nat; next_sid : nat; cfg : pcfg }.
+                next_mid : nat; next_sid : nat; cfg : pcfg;
+                (* oracle for rand.Intn in route, set by the event EChoices before a read of client
+                   bytes: fragment request -> the node the run was seen to choose for it *)
+                choices : list (bytes * bytes) }.
 
 Inductive result (A : Type) := ROk (a : A) | RCrash (why : bytes) | RHang (why : bytes) | RShutdown.
 Arguments ROk {A} a. Arguments RCrash {A} why. Arguments RHang {A} why. Arguments RShutdown {A}.
@@ -50,28 +55,31 @@ Fixpoint update {A} (k : nat) (v : A) (l : list (nat * A)) : list (nat * A) :=
 
 Definition set_client (st : pst) (c : nat) (x : pclient) : pst :=
   {| clients := update c x (clients st); servers := servers st; msgs := msgs st; pools := pools st; slots := slots st;
-     tasks := tasks st; inflight := inflight st; next_mid := next_mid st; next_sid := next_sid st; cfg := cfg st |}.
+     tasks := tasks st; inflight := inflight st; next_mid := next_mid st; next_sid := next_sid st; cfg := cfg st; choices := choices st |}.
 Definition set_server (st : pst) (s : nat) (x : pserver) : pst :=
   {| clients := clients st; servers := update s x (servers st); msgs := msgs st; pools := pools st; slots := slots st;
-     tasks := tasks st; inflight := inflight st; next_mid := next_mid st; next_sid := next_sid st; cfg := cfg st |}.
+     tasks := tasks st; inflight := inflight st; next_mid := next_mid st; next_sid := next_sid st; cfg := cfg st; choices := choices st |}.
 Definition set_msg (st : pst) (m : nat) (x : pmsg) : pst :=
   {| clients := clients st; servers := servers st; msgs := update m x (msgs st); pools := pools st; slots := slots st;
-     tasks := tasks st; inflight := inflight st; next_mid := next_mid st; next_sid := next_sid st; cfg := cfg st |}.
+     tasks := tasks st; inflight := inflight st; next_mid := next_mid st; next_sid := next_sid st; cfg := cfg st; choices := choices st |}.
 Definition set_pools (st : pst) (p : list ppool) : pst :=
   {| clients := clients st; servers := servers st; msgs := msgs st; pools := p; slots := slots st;
-     tasks := tasks st; inflight := inflight st; next_mid := next_mid st; next_sid := next_sid st; cfg := cfg st |}.
+     tasks := tasks st; inflight := inflight st; next_mid := next_mid st; next_sid := next_sid st; cfg := cfg st; choices := choices st |}.
 Definition set_tasks (st : pst) (t : list ptask) : pst :=
   {| clients := clients st; servers := servers st; msgs := msgs st; pools := pools st; slots := slots st;
-     tasks := t; inflight := inflight st; next_mid := next_mid st; next_sid := next_sid st; cfg := cfg st |}.
+     tasks := t; inflight := inflight st; next_mid := next_mid st; next_sid := next_sid st; cfg := cfg st; choices := choices st |}.
 Definition set_inflight (st : pst) (t : list (nat * fragref)) : pst :=
   {| clients := clients st; servers := servers st; msgs := msgs st; pools := pools st; slots := slots st;
-     tasks := tasks st; inflight := t; next_mid := next_mid st; next_sid := next_sid st; cfg := cfg st |}.
+     tasks := tasks st; inflight := t; next_mid := next_mid st; next_sid := next_sid st; cfg := cfg st; choices := choices st |}.
 Definition bump_mid (st : pst) : pst :=
   {| clients := clients st; servers := servers st; msgs := msgs st; pools := pools st; slots := slots st;
-     tasks := tasks st; inflight := inflight st; next_mid := S (next_mid st); next_sid := next_sid st; cfg := cfg st |}.
+     tasks := tasks st; inflight := inflight st; next_mid := S (next_mid st); next_sid := next_sid st; cfg := cfg st; choices := choices st |}.
+Definition set_choices (st : pst) (ch : list (bytes * bytes)) : pst :=
+  {| clients := clients st; servers := servers st; msgs := msgs st; pools := pools st; slots := slots st;
+     tasks := tasks st; inflight := inflight st; next_mid := next_mid st; next_sid := next_sid st; cfg := cfg st; choices := ch |}.
 Definition bump_sid (st : pst) : pst :=
   {| clients := clients st; servers := servers st; msgs := msgs st; pools := pools st; slots := slots st;
-     tasks := tasks st; inflight := inflight st; next_mid := next_mid st; next_sid := S (next_sid st); cfg := cfg st |}.
+     tasks := tasks st; inflight := inflight st; next_mid := next_mid st; next_sid := S (next_sid st); cfg := cfg st; choices := choices st |}.
 
 Definition fragref_eqb (a b : fragref) : bool :=
   match a, b with
@@ -234,13 +242,46 @@ Definition enqueue_out (st : pst) (s : nat) (f : fragref) : pst :=
   | None => st
   end.
 
-(* phase 1 of OnCReact: a connection for every fragment, or the error reply; replicas are not used
-   (replica reads are covered by the route model; the event-loop theorems hold for any routing) *)
-Fixpoint resolve (st : pst) (body : list (N * cfrag)) : pst * (list (N * nat) + bytes) :=
-  match body with
+(* ---- route: the node for every fragment ---- *)
+(* listenServer.route is the function of Model/Route.v.  What it reads: the owning set of the slot
+   (master from the slot table, replicas from the configured sets), which replicas have a pool, and one
+   random number.  The random number is not observable; the node the run chose is (event EChoices):
+   the model feeds route with the index of that node among the live replicas.  A choice route cannot
+   make - a replica for a write, a node outside the set - therefore gives a different target here
+   than in the run, and the correspondence breaks.  Ban flags are not modelled (the layouts with
+   replica reads have only reachable replicas; C04 / C20 cover bans on the route function itself). *)
+Definition has_pool (st : pst) (a : bytes) : bool := existsb (fun p => beqb (pp_addr p) a) (pools st).
+Definition replicas_of (c : pcfg) (master : bytes) : list bytes :=
+  match find (fun e => beqb (fst e) master) (cf_reps c) with Some e => snd e | None => [] end.
+Fixpoint index_of (a : bytes) (l : list bytes) : nat :=
+  match l with [] => O | x :: r => if beqb x a then O else S (index_of a r) end.
+Definition chosen (st : pst) (req : bytes) : option bytes :=
+  match find (fun e => beqb (fst e) req) (choices st) with Some e => Some (snd e) | None => None end.
+
+Definition slot_target (st : pst) (ty : N) (slot : N) (req : bytes) : option bytes :=
+  match slot_master st slot with
+  | None => None
+  | Some m =>
+      match chosen st req with
+      | None => Some m
+      | Some a =>
+          let slaves := map (fun r => {| r_addr := r; r_pool := has_pool st r; r_ban := false; r_lift_before_now := false |})
+                            (replicas_of (cfg st) m) in
+          let addr := fst (route (negb (cf_replica_reads (cfg st))) ty m slaves (fun _ => index_of a (live_slaves slaves))) in
+          match addr with [] => None | _ => Some addr end
+      end
+  end.
+
+(* the routing plan of a request: slot -> node, computed from the state in which OnCReact starts *)
+Definition route_plan (st : pst) (ty : N) (body : list (N * cfrag)) : list (N * option bytes) :=
+  map (fun sf => (fst sf, slot_target st ty (fst sf) (cf_req (snd sf)))) body.
+
+(* phase 1 of OnCReact: a connection for every fragment, or the error reply *)
+Fixpoint resolve (st : pst) (plan : list (N * option bytes)) : pst * (list (N * nat) + bytes) :=
+  match plan with
   | [] => (st, inl [])
-  | (slot, _) :: rest =>
-      match slot_master st slot with
+  | (slot, target) :: rest =>
+      match target with
       | None => (st, inr ErrUnKnownSlot)
       | Some addr =>
           match find_pool st addr with
@@ -310,7 +351,7 @@ Definition on_request (st : pst) (c : nat) (m : cmsg) : pst :=
     | _, [] => st
     end
   else
-    match resolve st (by_slot (cm_body m)) with
+    match resolve st (route_plan st ty (by_slot (cm_body m))) with
     | (_, inr e) =>
         (* which connections were dialled before the failing fragment was reached depends on Go map
            iteration order; the dials are re-applied from the observed record (ensure_dials) *)
@@ -320,7 +361,7 @@ Definition on_request (st : pst) (c : nat) (m : cmsg) : pst :=
         let seqno := match lookup c (clients st1) with Some cl => pc_sent cl | None => O end in
         let pm := {| pm_client := c; pm_sm := smsg_of m (groups_for m);
                      pm_reqs := map (fun sf => (fst sf, cf_req (snd sf))) (cm_body m); pm_seq := seqno; pm_moved := [];
-                     pm_route := map (fun sf => (fst sf, slot_master st (fst sf))) (by_slot (cm_body m)) |} in
+                     pm_route := route_plan st ty (by_slot (cm_body m)) |} in
         let st2 := bump_mid (set_msg st1 mid pm) in
         let st3 := fold_left (fun s t => enqueue_out s (snd t) (FReq mid (fst t))) targets st2 in
         match lookup c (clients st3) with
@@ -638,9 +679,12 @@ Inductive event :=
 | EServerClose (s : nat)
 | ETimeout
 | EProbe (addr : bytes)        (* the ticker's topology probe: a connection of the pool of addr *)
-| ETopology (nodes : list (bytes * bool)) (newslots : list (Z * Z * bytes)).
+| ETopology (nodes : list (bytes * bool)) (newslots : list (Z * Z * bytes))
                                (* the ticker applies an adopted topology: (address, is replica) of every
                                   usable node, and the slot ranges of the masters *)
+| EChoices (ch : list (bytes * bytes)).
+                               (* no event of the loop: the oracle for the random numbers route will draw
+                                  while the next client bytes are read (see slot_target) *)
 
 Definition order_fn (l : list (nat * list N)) (s : nat) : list N :=
   match lookup s l with Some o => o | None => [] end.
@@ -671,7 +715,7 @@ Definition apply_topology (st : pst) (nodes : list (bytes * bool)) (newslots : l
   {| clients := clients st; servers := servers st; msgs := msgs st;
      pools := concat (map (topology_pool nodes) (pools st)); slots := newslots;
      tasks := tasks st ++ map TClose (concat (map (topology_closing nodes) (pools st)));
-     inflight := inflight st; next_mid := next_mid st; next_sid := next_sid st; cfg := cfg st |}.
+     inflight := inflight st; next_mid := next_mid st; next_sid := next_sid st; cfg := cfg st; choices := choices st |}.
 
 Definition step (st : pst) (e : event) : result pst :=
   match e with
@@ -696,6 +740,7 @@ Definition step (st : pst) (e : event) : result pst :=
       | None => ROk st
       end
   | ETopology nodes newslots => ROk (apply_topology st nodes newslots)
+  | EChoices ch => ROk (set_choices st ch)
   end.
 
 Fixpoint run (st : pst) (evs : list event) : result pst :=
@@ -706,4 +751,4 @@ Fixpoint run (st : pst) (evs : list event) : result pst :=
 
 Definition init_state (c : pcfg) (pools : list ppool) (slots : list (Z * Z * bytes)) : pst :=
   {| clients := []; servers := []; msgs := []; pools := pools; slots := slots; tasks := []; inflight := [];
-     next_mid := 0; next_sid := 0; cfg := c |}.
+     next_mid := 0; next_sid := 0; cfg := c; choices := [] |}.
